@@ -1,6 +1,9 @@
 import Tengo.Model.Json
 import Tengo.Gen.JsonScanner
 import Tengo.Proofs.JsonString
+import Tengo.Proofs.JsonEncode
+import Tengo.Proofs.JsonDecode
+import Tengo.Proofs.JsonParse
 /-!
 C18 — JSON encode/decode round-trips and agrees with encoding/json.
 
@@ -10,7 +13,8 @@ scanner automaton `checkValid`, `unquote`, `Decode`). The model is tied to the s
 and syntax errors) and by the regenerated tables of `Tengo.Gen.JsonScanner`.
 -/
 namespace Tengo.Props.C18
-open Tengo.Model.Json Tengo.Proofs.JsonString
+open Tengo.Model.Json Tengo.Proofs.JsonString Tengo.Proofs.JsonScan Tengo.Proofs.JsonGrammar Tengo.Proofs.JsonAccept
+  Tengo.Proofs.JsonEncode Tengo.Proofs.JsonDecode Tengo.Proofs.JsonParse
 
 /-! ## The regenerated tables are the ones the model uses -/
 
@@ -98,5 +102,114 @@ theorem surrogates :
     unquote [0x22, 0x5C, 0x75, 0x64, 0x65, 0x30, 0x30, 0x22] = some [0xEF, 0xBF, 0xBD] ∧
     unquote [0x22, 0x5C, 0x75, 0x64, 0x38, 0x33, 0x64, 0x5C, 0x75, 0x30, 0x30, 0x34, 0x31, 0x22] = some [0xEF, 0xBF, 0xBD, 0x41] := by
   decide
+
+/-! ## The scanner automaton is the RFC 8259 grammar -/
+
+/-- `Grammar.json b`: `b` is a JSON text (`ws value ws`) of the grammar of `Tengo.Proofs.JsonGrammar`
+(RFC 8259 §2–§7 as inductive predicates; bytes ≥ 0x20 other than `"` and `\` are string characters,
+as for encoding/json). The denoted value plays no role in derivability. -/
+def Grammar.json (b : Bytes) : Prop := ∃ v, Json (fun _ => 0) b v
+
+/-- **Scanner = grammar.** `checkValid` accepts exactly the JSON texts. -/
+theorem scanner_eq_grammar (b : Bytes) : (∃ s, checkValid b = .ok s) ↔ Grammar.json b := by
+  rw [checkValid_iff_accB]
+  exact ⟨accB_json _ b, fun ⟨_, h⟩ => json_accB h⟩
+
+/-- Non-vacuity: ` [1,{"a":-2.5e3}]` is in the grammar (through the theorem: the automaton accepts it). -/
+example : Grammar.json [0x20, 0x5B, 0x31, 0x2C, 0x7B, 0x22, 0x61, 0x22, 0x3A, 0x2D, 0x32, 0x2E, 0x35, 0x65, 0x33, 0x7D, 0x5D] :=
+  (scanner_eq_grammar _).mp ⟨_, by decide⟩
+
+example : ¬ Grammar.json [0x5B, 0x31, 0x2C, 0x5D] := fun h => by   -- `[1,]`
+  obtain ⟨s, hs⟩ := (scanner_eq_grammar _).mpr h
+  revert hs; decide
+
+/-! ## `Decode` is total and computes the denotation -/
+
+/-- `Decode` returns the value a JSON text denotes, and only on JSON texts. -/
+theorem decode_ok_iff (pf : Bytes → UInt64) (b : Bytes) (v : J) : decode pf b = .ok v ↔ Json pf b v := by
+  constructor
+  · intro h
+    cases hc : checkValid b with
+    | error e => simp [decode, hc] at h
+    | ok sc =>
+      obtain ⟨v', hv'⟩ := accB_json pf b ((checkValid_iff_accB b).mp ⟨sc, hc⟩)
+      have := decode_json pf hv'
+      rw [h] at this
+      cases this
+      exact hv'
+  · exact decode_json pf
+
+/-- **No panic, no fuel exhaustion.** On every byte string `Decode` returns a value or the scanner's
+syntax error: the phase panics of decode.go are unreachable after `checkValid`, and the fuel
+`2·|data|+2` the model gives the recursion always suffices. -/
+theorem decode_no_panic (pf : Bytes → UInt64) (b : Bytes) :
+    (∃ v, decode pf b = .ok v) ∨ (∃ e, checkValid b = .error e ∧ decode pf b = .syntaxErr e) := by
+  cases hc : checkValid b with
+  | error e => exact .inr ⟨e, rfl, by simp [decode, hc]⟩
+  | ok sc =>
+    obtain ⟨v, hv⟩ := accB_json pf b ((checkValid_iff_accB b).mp ⟨sc, hc⟩)
+    exact .inl ⟨v, decode_json pf hv⟩
+
+/-- `Decode` fails exactly when the scanner rejects, i.e. exactly on non-JSON. -/
+theorem decode_err_iff (pf : Bytes → UInt64) (b : Bytes) : (∃ e, decode pf b = .syntaxErr e) ↔ ¬ Grammar.json b := by
+  rw [← scanner_eq_grammar]
+  constructor
+  · rintro ⟨e, he⟩ ⟨s, hs⟩
+    simp only [decode, hs] at he
+    split at he <;> cases he
+  · intro h
+    rcases decode_no_panic pf b with ⟨v, hv⟩ | ⟨e, _, he⟩
+    · exact absurd ((scanner_eq_grammar b).mpr ⟨_, (decode_ok_iff (fun _ => 0) b _).mp (by
+        have := (decode_ok_iff pf b v).mp hv
+        obtain ⟨w1, t, w2, rfl, hw1, hv', hw2⟩ := this
+        cases hc : checkValid (w1 ++ t ++ w2) with
+        | error e => simp [decode, hc] at hv
+        | ok sc => exact absurd ⟨sc, hc⟩ h)⟩) h
+    · exact ⟨e, he⟩
+
+/-! ## Number typing -/
+
+/-- **Number typing.** A number token decodes to an int iff it contains none of `.`, `e`, `E` and
+`strconv.ParseInt` accepts it (i.e. it is within int64); otherwise to the float `ParseFloat` gives. -/
+theorem number_typing (pf : Bytes → UInt64) (t : Bytes) (h : NumTok t) :
+    decode pf t = .ok (if t.any isFloatByte then .float (pf t) else
+      match parseInt t with
+      | some n => .int n
+      | none => .float (pf t)) := by
+  have := decode_json pf (b := t) ⟨[], t, [], by simp, ws_nil, Val.num h, ws_nil⟩
+  rw [this]; simp [number]
+
+/-- `ParseInt` on the text `AppendInt` writes, and on the first integers outside int64. -/
+theorem parseInt_range :
+    parseInt (appendInt (2 ^ 63 - 1)) = some (2 ^ 63 - 1) ∧ parseInt (appendInt (-(2 ^ 63))) = some (-(2 ^ 63)) ∧
+    parseInt [0x39, 0x32, 0x32, 0x33, 0x33, 0x37, 0x32, 0x30, 0x33, 0x36, 0x38, 0x35, 0x34, 0x37, 0x37, 0x35, 0x38, 0x30, 0x38] = none ∧
+    parseInt [0x2D, 0x39, 0x32, 0x32, 0x33, 0x33, 0x37, 0x32, 0x30, 0x33, 0x36, 0x38, 0x35, 0x34, 0x37, 0x37, 0x35, 0x38, 0x30, 0x39] = none := by
+  decide
+
+/-- Non-vacuity of `number_typing`: `10`, `1.0`, `1e5`, `1E5`, `9223372036854775808` with `pf := fun _ => 7`. -/
+example :
+    decode (fun _ => 7) [0x31, 0x30] = .ok (.int 10) ∧
+    decode (fun _ => 7) [0x31, 0x2E, 0x30] = .ok (.float 7) ∧
+    decode (fun _ => 7) [0x31, 0x65, 0x35] = .ok (.float 7) ∧
+    decode (fun _ => 7) [0x31, 0x45, 0x35] = .ok (.float 7) ∧
+    decode (fun _ => 7) [0x39, 0x32, 0x32, 0x33, 0x33, 0x37, 0x32, 0x30, 0x33, 0x36, 0x38, 0x35, 0x34, 0x37, 0x37, 0x35, 0x38, 0x30, 0x38] =
+      .ok (.float 7) := by decide
+
+/-! ## Encode: valid JSON, and the round trip -/
+
+/-- **The encoding is valid.** For every float-free representable value (ints within int64, strings
+and keys valid UTF-8, any nesting) `Encode` succeeds and `checkValid` accepts the text. -/
+theorem encode_valid (ff : UInt64 → Bytes × Bytes) (v : J) (h : Rep v) :
+    ∃ t, encode ff v = some t ∧ (∃ s, checkValid t = .ok s) ∧ Grammar.json t := by
+  obtain ⟨t, ht, hv⟩ := enc_val (fun _ => 0) ff v h
+  have hj : Json (fun _ => 0) t (canon v) := ⟨[], t, [], by simp, ws_nil, hv, ws_nil⟩
+  exact ⟨t, ht, (scanner_eq_grammar t).mpr ⟨_, hj⟩, ⟨_, hj⟩⟩
+
+/-- **Round trip.** Decoding the encoding of a float-free representable value gives its canonical
+form: the same value with every map holding its members sorted by key (what a Go map is). -/
+theorem decode_encode (pf : Bytes → UInt64) (ff : UInt64 → Bytes × Bytes) (v : J) (h : Rep v) :
+    ∃ t, encode ff v = some t ∧ decode pf t = .ok (canon v) := by
+  obtain ⟨t, ht, hv⟩ := enc_val pf ff v h
+  exact ⟨t, ht, decode_json pf ⟨[], t, [], by simp, ws_nil, hv, ws_nil⟩⟩
 
 end Tengo.Props.C18
